@@ -309,8 +309,27 @@ void set_viol(Ctx &c, const char *cls, const std::string &msg) {
 }
 
 // ------------------------------------------------------------------ object storage
-void *obj_alloc(size_t n) { void *p = std::malloc(n); if (!p) std::abort(); std::memset(p, 0xCB, n); return p; }
-void obj_free(void *p) { std::free(p); }
+// harness-owned storage for library objects, with guard bytes on both sides in the plain variant (an object that writes
+// outside its own footprint is detected deterministically; the asan variant leaves this to AddressSanitizer)
+#ifdef SIMRT_ASAN
+static const size_t OG = 0;
+#else
+static const size_t OG = 64;
+#endif
+void *obj_alloc(size_t n) {
+    char *p = (char *)std::malloc(n + 2 * OG + sizeof(size_t) * 2);
+    if (!p) std::abort();
+    std::memcpy(p, &n, sizeof n);
+    char *u = p + sizeof(size_t) * 2 + OG;
+    std::memset(u - OG, 0xFB, OG); std::memset(u, 0xCB, n); std::memset(u + n, 0xFB, OG);
+    return u;
+}
+void obj_free(void *p) { std::free((char *)p - OG - sizeof(size_t) * 2); }
+bool obj_guard_intact(const void *p) {
+    const unsigned char *u = (const unsigned char *)p; size_t n; std::memcpy(&n, u - OG - sizeof(size_t) * 2, sizeof n);
+    for (size_t i = 0; i < OG; i++) if (u[-(ptrdiff_t)OG + (ptrdiff_t)i] != 0xFB || u[n + i] != 0xFB) return false;
+    return true;
+}
 
 template <class T> BufObj<T> *add_buf(Ctx &c, void *mem) {
     auto *o = new BufObj<T>(); o->mem = mem; o->serial = c.next_serial++; c.bufs<T>().push_back(o); return o;
@@ -537,8 +556,11 @@ static void drain_heap(Ctx &c) {
     char d[200];
     simrt::HeapViolation hv = simrt::heap_take_violation(d, sizeof d);
     if (hv == simrt::HV_NONE) return;
-    const char *cls = hv == simrt::HV_DOUBLE_FREE ? "double_free" : hv == simrt::HV_INVALID_FREE ? "invalid_free" : "form_mismatch";
+    const char *cls = hv == simrt::HV_DOUBLE_FREE ? "double_free" : hv == simrt::HV_INVALID_FREE ? "invalid_free" : hv == simrt::HV_OVERRUN ? "out_of_bounds_write" : "form_mismatch";
     set_viol(c, cls, d);
+}
+template <class V> static void guards(Ctx &c, V &v, const char *kind) {
+    for (auto *o : v) if (!c.viol.set && !obj_guard_intact(o->mem)) set_viol(c, "out_of_bounds_write", std::string(kind) + "#" + std::to_string(o->serial) + ": bytes just outside the object's own footprint were overwritten");
 }
 
 template <class V> static void reset_roles(V &v) { for (auto *o : v) { o->role = ROLE_NONE; o->after_throw = false; } }
@@ -546,6 +568,8 @@ template <class V> static void reset_roles(V &v) { for (auto *o : v) { o->role =
 void check_all(Ctx &c) {
     if (c.stats) c.stats->checks++;
     drain_heap(c);
+    if (!c.viol.set) { char d[160]; if (!simrt::heap_redzones_intact(d, sizeof d)) set_viol(c, "out_of_bounds_write", d); }
+    if (!c.viol.set) { guards(c, c.b8, "char"); guards(c, c.bw, "wchar_t"); guards(c, c.b16, "char16_t"); guards(c, c.b32, "char32_t"); guards(c, c.strs, "string"); guards(c, c.sss, "stream"); }
     if (!c.viol.set) {
         Checker k(c);
         k.pass(false);       // storage of every object first: nothing is read through a bad pointer
